@@ -23,6 +23,9 @@ def sum_of_squares(
     fill_value=None,
     dtype=None,
 ):
+    if dtype is not None and array.dtype.kind in "iub":
+        # square in the (wider) accumulation dtype: narrow integers would wrap
+        array = array.astype(dtype)
     return _get_aggregate(engine).aggregate(
         group_idx,
         array,
@@ -44,6 +47,9 @@ def nansum_of_squares(
     fill_value=None,
     dtype=None,
 ):
+    if dtype is not None and array.dtype.kind in "iub":
+        # square in the (wider) accumulation dtype: narrow integers would wrap
+        array = array.astype(dtype)
     return _get_aggregate(engine).aggregate(
         group_idx,
         array,
